@@ -76,9 +76,9 @@ Lemma vrt_arr_go o n :
 Proof.
   intros Hwo Hwn IH. apply vwf_arr_inv in Hwo.
   unfold vRT_go. rewrite vdiff_arr. unfold vdiff_array.
-  set (idx := vcompute_reorder_indices o n).
-  assert (Hlen : List.length idx = List.length n) by apply vreorder_indices_length.
-  assert (Hb : Forall (idx_ok (List.length o)) idx) by apply vreorder_indices_bound.
+  set (idx := vchoose o n).
+  assert (Hlen : List.length idx = List.length n) by apply vchoose_length.
+  assert (Hb : Forall (idx_ok (List.length o)) idx) by apply vchoose_bound.
   set (oc := negb (Nat.eqb (List.length o) (List.length idx)) || negb (order_is_identity 0 idx)).
   set (el := vdiff_elems o 0 (varr_subs n) idx).
   assert (Hrt : forall i v j, nth_error n i = Some v -> nth_error idx i = Some j -> vRT_go (voldI o j) v).
